@@ -7,6 +7,7 @@ RULE = ("scalar functions: every multiple of gamma2 +-{0,1,2}, 0, q-1, q-gamma2+
         "magic-constant step at the a1 boundaries, a mod 2^13 in {4095,4096,4097,0,8191}; make_hint: a0 in {-G-1,-G,-G+1,-1,0,1,G-1,G,G+1} "
         "and random |a0|<2G x every w1 in [0,m); use_hint: boundary a x h in {0,1}; hint round trip on (w1,a0) pairs; stride/random fill. "
         "Polynomial and vector copies: polynomials made of the boundary values. Non-trivial = tagged boundary case; distinct (fn,copy,input).")
+SOURCE_TIE = "kernels"   # C14/C15 are also stated about the translated text of reduce.rs / rounding*.rs (GenK.v)
 ASSUMPTIONS = ["[0,q) is enumerated at all boundaries and sampled elsewhere in the quick tier; the theorems cover it entirely for the model"]
 TIMEOUT = {"quick": 300, "thorough": 2400}
 GS = {"lvl2": 95232, "lvl3": 261888, "lvl5": 261888}
@@ -69,6 +70,9 @@ def gen(tier, rng):
             a0 = [rng.choice([-G - 1, -G, -G + 1, 0, G, G + 1, rng.randrange(-2 * G + 1, 2 * G)]) for _ in range(256)]
             a1 = [rng.randrange(m) for _ in range(256)]
             out.append(Case("poly_decompose", cp, [a], ["in_domain", "poly"]))
+            az = list(a)
+            for _ in range(6): az[rng.randrange(256)] = rng.choice([0, 0, 1, Q - 1, G, Q - 1 - G])
+            out.append(Case("poly_decompose", cp, [az], ["in_domain", "poly", "zeros"]))
             out.append(Case("poly_use_hint", cp, [a, h], ["in_domain", "poly"]))
             out.append(Case("poly_use_hint_ip", cp, [a, h], ["in_domain", "poly"]))
             out.append(Case("poly_make_hint", cp, [a0, a1], ["in_domain", "poly"]))
@@ -83,6 +87,11 @@ def gen(tier, rng):
             v0 = [[rng.choice([-G - 1, -G, -G + 1, 0, G, G + 1, rng.randrange(-2 * G + 1, 2 * G)]) for _ in range(256)] for _ in range(p.K)]
             v1 = [[rng.randrange(p.m) for _ in range(256)] for _ in range(p.K)]
             out.append(Case("k_decompose", lv, [flat(v), flat(dirty)], ["in_domain", "vec"]))
+            vz = [list(x) for x in v]
+            for x in vz:
+                for _ in range(4): x[rng.randrange(256)] = rng.choice([0, 0, 1, Q - 1])
+            big_dirty = [[rng.randrange(-Q + 1, Q) for _ in range(256)] for _ in range(p.K)]
+            out.append(Case("k_decompose", lv, [flat(vz), flat(big_dirty)], ["in_domain", "vec", "zeros"]))
             out.append(Case("k_power2round", lv, [flat(v), flat(dirty)], ["in_domain", "vec"]))
             out.append(Case("k_use_hint", lv, [flat(v), flat(h)], ["in_domain", "vec"]))
             out.append(Case("k_make_hint", lv, [flat(v0), flat(v1)], ["in_domain", "vec"]))
